@@ -65,9 +65,19 @@ class Lab:
         self.budget = budget
         self.problems = []
         self.packets = []
+        self.taps = []
+        self.driver = None      # optional callable(lab, until) replacing the stepping loop (C03 split runs)
 
     def tap(self, name, out=None):
-        return Tap(self, name, out)
+        t = Tap(self, name, out)
+        self.taps.append(t)
+        return t
+
+    def global_trace(self):
+        """everything every tap saw, in global action order"""
+        recs = [(r.seq, t.name, r.now, r.snap, r.color) for t in self.taps for r in t.recs]
+        recs.sort()
+        return [list(x[1:]) for x in recs]
 
     def flag(self, clause, detail, sig=None):
         self.problems.append(Violation(clause, detail, sig or clause))
@@ -115,6 +125,8 @@ class Lab:
     def run(self, until=inf):
         """harness stepping loop to agenda exhaustion (or simulated-time horizon)"""
         env = self.env
+        if self.driver is not None:
+            self.driver(self, until)
         while env.peek() < until:
             self.steps += 1
             if self.steps > self.budget:
